@@ -1099,7 +1099,10 @@ def run(ck):
     w = World(registry(), fails, "compat")
     w.canon, w.universe = w0.canon, w0.universe
     for k, n in enumerate(names):
-        for sc in scopes:
+        # quick tier: every system, a sample of the groups (all scopes for the first name)
+        use = scopes if (thorough or k == 0) else \
+            [None] + sorted(ureg._systems) + rng.sample(sorted(ureg._groups), 6) + ["nosuch"]
+        for sc in use:
             w.apply(["compat", jd({n: F(1)}), sc])
         if k % 3 == 2:
             add(w, ("compat", n))
@@ -1142,7 +1145,7 @@ def run(ck):
         w = World(ureg, fails, f"compound:{sysname}")
         w.canon, w.universe = w0.canon, w0.universe
         w.apply(["set_default", sysname])
-        for _ in range(120 if thorough else 16):
+        for _ in range(120 if thorough else 12):
             d = rnd_units(rng, pool)
             if not d:
                 continue
